@@ -454,7 +454,7 @@ pub fn run(ctx: &Ctx) -> Coverage {
     ctx.note(format!("{} regex ASTs, {} (regex, entry point) jobs", all.len(), jobs.len()));
     let f_holder: Vec<Factory> = (0..1).map(|_| Factory::new(&vocab, &Slices::None).unwrap()).collect();
     let _ = f_holder;
-    let max_states = ctx.tier.pick(3000, 30000);
+    let max_states = ctx.tier.pick(10000, 60000);
     let xcheck_errs: std::sync::Mutex<Vec<String>> = std::sync::Mutex::new(vec![]);
     jobs.par_iter().for_each(|job| {
         if ctx.over_budget() {
